@@ -473,7 +473,7 @@ Print pcorr_bad. Print pprop_bad. Print lcorr_res. Print lcorr_bad. Print lprop_
         broken.append("correspondence Trigger.harvest_by_type vs harvestByType differs on %s"
                       % json.dumps([{"reply": zero[i]["json"], "ops": zero[i]["ops"], "observed": obs["zero"][i]}
                                     for i in res["zcorr_bad"][:3]])[:4000])
-    if broken and not chk.violations and not chk.known_hits:
+    if broken and not chk.violations:
         chk.fail("broken.txt", "\n\n".join(broken), no_input=True)
     chk.assumptions += ["Go channel / select / goroutine semantics as modelled in TriggerLts.tstep; the broadcast goroutine "
                         "cancels the members in broadcastGroup order",
